@@ -640,6 +640,125 @@ def repo_classes(repo):
     return repo._pgv_class_names
 
 
+# ------------------------------------------------------------------ R15.module-state
+ALLOWED_MODULE_STATE = {
+    ("parglare.grammar.get_grammar_parser", "grammar_parser"):
+        "memo of the parser for the grammar language itself: built from constants only (pg_productions, pg_actions)",
+}
+
+
+ALLOWED_MODULE_ESCAPES = {
+    ("parglare.grammar.get_grammar_parser", "pg_productions"): "the grammar of the grammar language, only read (R15.args-pure)",
+    ("parglare.grammar.get_grammar_parser", "pg_actions"): "its actions, only read (R15.args-pure)",
+    ("parglare.grammar.get_grammar_parser", "pg_terminals"): "its terminals, only read",
+}
+
+
+def stmt_text(n):
+    while n is not None and not isinstance(n, ast.stmt):
+        n = parent(n)
+    return n
+
+
+def rule_module_state(rep):
+    with rep.rule(
+        "R15.module-state",
+        "no function of the package keeps state in a module-level object (rebinding a global, storing "
+        "into or mutating a module-level container) outside a closed allow-list: what one grammar / "
+        "parser does cannot change what the next one, built in the same process, does",
+    ) as r:
+        repo = rep.repo
+        n_sites = 0
+        for m in repo.modules.values():
+            glob = set()
+            for st in m.tree.body:
+                tg = st.targets if isinstance(st, ast.Assign) else [st.target] if isinstance(st, (ast.AnnAssign, ast.AugAssign)) else []
+                for t in tg:
+                    if isinstance(t, ast.Name):
+                        glob.add(t.id)
+            for f in repo.all_funcs():
+                if f.module is not m:
+                    continue
+                declared = set()
+                for n in walk_no_nested(f.node):
+                    if isinstance(n, ast.Global):
+                        declared.update(n.names)
+                local = {
+                    n.id for n in ast.walk(f.node) if isinstance(n, ast.Name) and isinstance(n.ctx, ast.Store)
+                } | set(f.params)
+                local -= declared
+                o = f.outer
+                while o is not None:  # names of enclosing functions are not module state
+                    local |= {n.id for n in ast.walk(o.node) if isinstance(n, ast.Name) and isinstance(n.ctx, ast.Store)} | set(o.params)
+                    o = o.outer
+                sites = []
+                for n in walk_no_nested(f.node):
+                    if isinstance(n, ast.Name) and isinstance(n.ctx, (ast.Store, ast.Del)) and n.id in declared:
+                        sites.append((n.id, n))
+                    elif isinstance(n, ast.Subscript) and isinstance(n.ctx, (ast.Store, ast.Del)) and isinstance(n.value, ast.Name):
+                        if n.value.id in glob and n.value.id not in local:
+                            sites.append((n.value.id, n))
+                    elif isinstance(n, ast.Call) and isinstance(n.func, ast.Attribute) and n.func.attr in MUTATORS \
+                            and isinstance(n.func.value, ast.Name) and n.func.value.id in glob and n.func.value.id not in local:
+                        sites.append((n.func.value.id, n))
+                for name, n in sites:
+                    n_sites += 1
+                    key = (f.qual, name)
+                    r.check(
+                        key in ALLOWED_MODULE_STATE,
+                        f"{f.qual_in_module}: module-level `{name}`: {ALLOWED_MODULE_STATE.get(key, '')}",
+                        f"{f.qual_in_module}:module-state {name}",
+                        f"{f.qual_in_module} changes the module-level object `{name}` (`{norm_text(n)[:70]}`): state survives "
+                        "from one grammar / parser to the next one built in the same process (e.g. a cache keyed by "
+                        "less than everything that shaped the cached object)",
+                        node=n,
+                    )
+        r.floor("module-state write sites (the allow-listed memo must be seen)", n_sites, 1)
+        # a module-level mutable container must not escape into per-parse data (a result list, an
+        # argument of a user action): whoever appends to it changes every later parse
+        n_esc = 0
+        for m in repo.modules.values():
+            glob = {}
+            for st in m.tree.body:
+                if isinstance(st, ast.Assign) and isinstance(st.value, (ast.Dict, ast.List, ast.Set, ast.ListComp, ast.DictComp, ast.SetComp)):
+                    for t in st.targets:
+                        if isinstance(t, ast.Name):
+                            glob[t.id] = st
+                elif isinstance(st, ast.AnnAssign) and isinstance(st.value, (ast.Dict, ast.List, ast.Set)) and isinstance(st.target, ast.Name):
+                    glob[st.target.id] = st
+            if not glob or m.name.endswith("termui"):
+                continue  # termui: colour tables of the debug output
+            for f in repo.all_funcs():
+                if f.module is not m:
+                    continue
+                local = {n.id for n in ast.walk(f.node) if isinstance(n, ast.Name) and isinstance(n.ctx, ast.Store)} | set(f.params)
+                for n in walk_no_nested(f.node):
+                    if not (isinstance(n, ast.Name) and isinstance(n.ctx, ast.Load) and n.id in glob and n.id not in local):
+                        continue
+                    par = parent(n)
+                    readonly = (
+                        (isinstance(par, ast.Compare) and n in par.comparators and all(isinstance(o, (ast.In, ast.NotIn)) for o in par.ops))
+                        or (isinstance(par, ast.Subscript) and par.value is n and isinstance(par.ctx, ast.Load))
+                        or (isinstance(par, (ast.For, ast.comprehension)) and par.iter is n)
+                        or (isinstance(par, ast.Call) and isinstance(par.func, ast.Name) and par.func.id in ("len", "list", "dict", "set", "tuple", "sorted", "iter", "enumerate") and n in par.args)
+                        or (isinstance(par, ast.Attribute) and par.value is n and par.attr in ("get", "items", "keys", "values", "copy", "index", "count"))
+                    )
+                    if readonly:
+                        continue
+                    n_esc += 1
+                    key = (f.qual, n.id)
+                    r.check(
+                        key in ALLOWED_MODULE_ESCAPES,
+                        f"{f.qual_in_module}: module-level `{n.id}` handed on: {ALLOWED_MODULE_ESCAPES.get(key, '')}",
+                        f"{f.qual_in_module}:module-object-escapes {n.id}",
+                        f"{f.qual_in_module} hands the module-level mutable object `{n.id}` on (`{norm_text(stmt_text(n))[:70]}`): it becomes "
+                        "part of per-parse data (a result, an argument of a user action), so a caller or action that "
+                        "mutates it changes every later parse in the process",
+                        node=n,
+                    )
+        r.fact("module_level_containers_handed_on", n_esc)
+
+
 # ------------------------------------------------------------------ R15.actions-reset
 def rule_actions_reset(rep):
     with rep.rule(
@@ -943,5 +1062,6 @@ def check(rep):
     rule_table_readonly(rep)
     rule_defaults(rep)
     rule_args_pure(rep)
+    rule_module_state(rep)
     rule_actions_reset(rep)
     rule_markers(rep)
